@@ -196,8 +196,8 @@ def obligations():
     # 5 rows is the smallest size with two pockets on one side of the pinch: one process per pinch position
     obs += split(Obligation("C07.np.breakpoints5.b", _ob_nopockets(5, grid=True), kind="bounded", bound="GCCs of 5 rows on a fixed 10 K grid (as above)", functions=fs,
                             max_paths=400000, timeout_ms=20000, doc="ENVELOPE and BREAKPOINT, five rows"), rows=[5], pinch_row=[0, 1, 2, 3, 4])
-    obs += split(Obligation("C07.np.large.b", _ob_nopockets(6), kind="bounded", tier="thorough", bound="GCCs of 5..6 rows, all symbolic", functions=fs, max_paths=5000000),
-                 rows=[5, 6], pinch_row=[0, 1, 2, 3, 4, 5])
+    big = Obligation("C07.np.large.b", _ob_nopockets(6), kind="bounded", tier="thorough", bound="GCCs of 5..6 rows, all symbolic", functions=fs, max_paths=5000000)
+    obs += split(big, rows=[5], pinch_row=[0, 1, 2, 3, 4]) + split(big, rows=[6], pinch_row=[0, 1, 2, 3, 4, 5])
     obs += split(Obligation("C07.np.breakpoints.large.b", _ob_nopockets(6, grid=True), kind="bounded", tier="thorough", bound="GCCs of 6 rows on a fixed grid", functions=fs,
                             max_paths=5000000, timeout_ms=20000), rows=[6], pinch_row=[0, 1, 2, 3, 4, 5])
     for above in (True, False):
